@@ -483,16 +483,23 @@ def opObPre (args : List String) (impl : String) : Verdict :=
         | fuel + 1 =>
           if a.length ≥ 64 && b.length ≥ 64 && a.take 64 == b.take 64 then lcp fuel (a.drop 64) (b.drop 64) (k + 1) else k
       let l := lcp (a.length / 64 + 1) a b 0
-      let m := s!"{a.length / 64} {stable} {l}"
+      let t2 : Tree := ⟨ext.length, bs⟩
+      let stable2 := (t2.postOrderNodesIter.filter fun x =>
+        match t2.postOrderOffset x with | some (.stable _) => true | _ => false).length
+      let m := s!"{a.length / 64} {stable} {l} {b.length / 64} {stable2}"
+      let specStable2 := ((Spec.persistedPost ext.length bs).filter fun x =>
+        Spec.endOf (Spec.indexOf x) (Spec.levelOf x) * 1024 ≤ ext.length).length
       -- spec: number of stable pairs = persisted nodes whose subtree lies inside the blob; they are a common prefix
       let specStable := ((Spec.persistedPost n bs).filter fun x =>
         Spec.endOf (Spec.indexOf x) (Spec.levelOf x) * 1024 ≤ n).length
       let sf : Option String :=
         match (impl.splitOn " ").mapM (·.toNat?) with
-        | some [pairs, st, l] =>
+        | some [pairs, st, l, g, st2] =>
           if pairs != Spec.nBlocks n bs - 1 then some "number of pairs"
           else if st != specStable then some s!"stable count {st}, spec {specStable}"
           else if l < st then some s!"stable prefix of {st} pairs is not a prefix of the extension's outboard (common prefix {l})"
+          else if st2 != specStable2 then some s!"stable count of the extension {st2}, spec {specStable2}"
+          else if g < st2 then some s!"the extension's outboard (grown in place) has only {g} of its {st2} stable pairs right: cut after them it is not a prefix of the outboards of further extensions"
           else none
         | _ => some "malformed"
       { model := m, specFail := sf, nontrivial := specStable > 0 }
